@@ -15,8 +15,9 @@ EXTENDS Integers
 
 VARIABLES Len0,     \* length of the lane (never changes)
           Lane0,    \* call-time contents: a function on 0 .. Len0-1 (never changes)
-          lane, i, j, pc, ret
-vars == <<Len0, Lane0, lane, i, j, pc, ret>>
+          lane, i, j, pc, ret,
+          perm      \* ghost: perm[x] is the original position of the element now at x
+vars == <<Len0, Lane0, lane, i, j, pc, ret, perm>>
 params == <<Len0, Lane0>>
 
 Assumptions ==
@@ -30,31 +31,32 @@ Swap(a, x, y) == [a EXCEPT ![x] = a[y], ![y] = a[x]]
 Init ==
     /\ Assumptions
     /\ lane = Lane0 /\ i = 0 /\ j = 0 /\ pc = "Start" /\ ret = 0
+    /\ perm = [x \in 0 .. (Len0 - 1) |-> x]
 
 (* mod.rs:47-51 *)
 Start ==
     /\ pc = "Start"
     /\ IF Len0 = 0 THEN pc' = "Cast" /\ i' = 0 /\ j' = 0
        ELSE i' = 0 /\ j' = Len0 - 1 /\ pc' = "ScanI"
-    /\ UNCHANGED <<lane, ret, params>>
+    /\ UNCHANGED <<lane, ret, params, perm>>
 
 (* mod.rs:55-57 *)
 StepI ==
     /\ pc = "ScanI"
     /\ IF i <= j /\ ~Missing(lane[i]) THEN i' = i + 1 /\ pc' = "ScanI" ELSE i' = i /\ pc' = "ScanJ"
-    /\ UNCHANGED <<lane, j, ret, params>>
+    /\ UNCHANGED <<lane, j, ret, params, perm>>
 
 (* mod.rs:59-61 *)
 StepJ ==
     /\ pc = "ScanJ"
     /\ IF j > i /\ Missing(lane[j]) THEN j' = j - 1 /\ pc' = "ScanJ" ELSE j' = j /\ pc' = "Cmp"
-    /\ UNCHANGED <<lane, i, ret, params>>
+    /\ UNCHANGED <<lane, i, ret, params, perm>>
 
 (* mod.rs:63-69 *)
 Cmp ==
     /\ pc = "Cmp"
-    /\ IF i >= j THEN pc' = "Cast" /\ UNCHANGED <<lane, i, j>>
-       ELSE /\ lane' = Swap(lane, i, j)
+    /\ IF i >= j THEN pc' = "Cast" /\ UNCHANGED <<lane, i, j, perm>>
+       ELSE /\ lane' = Swap(lane, i, j) /\ perm' = Swap(perm, i, j)
             /\ i' = i + 1 /\ j' = j - 1 /\ pc' = "ScanI"
     /\ UNCHANGED <<ret, params>>
 
@@ -63,7 +65,7 @@ Cast ==
     /\ pc = "Cast"
     /\ ret' = i
     /\ pc' = "done"
-    /\ UNCHANGED <<lane, i, j, params>>
+    /\ UNCHANGED <<lane, i, j, params, perm>>
 
 Next == Start \/ StepI \/ StepJ \/ Cmp \/ Cast
 Spec == Init /\ [][Next]_vars
@@ -102,5 +104,13 @@ Post ==
 
 StartOK == pc = "Start" => lane = Lane0
 
-Inv == TypeOK /\ CursorInv /\ LoopInv /\ Post /\ StartOK
+(* C03 / C04 for every length: the lane is at all times a rearrangement of the original one - every cell holds the *)
+(* element of a distinct original cell (an injection of a finite set into itself is a bijection: none is lost)    *)
+PermInv ==
+    /\ perm \in [Idx -> Idx]
+    /\ \A x \in Idx : \A y \in Idx : x # y => perm[x] # perm[y]
+    /\ \A x \in Idx : lane[x] = Lane0[perm[x]]
+
+Core == TypeOK /\ CursorInv /\ LoopInv /\ Post /\ StartOK
+Inv == Core /\ PermInv
 =============================================================================
